@@ -553,6 +553,10 @@ func UniqueEq[E any](f func([]E) []E, eq func(a, b E) bool) OpFunc {
 		l := build[[]E](c, a[0])
 		orig := append([]E(nil), l...)
 		out := f(l)
+		if coveredBy(eq, orig, out) && coveredBy(eq, out, orig) && !pairwiseNotEq(eq, out) {
+			// nothing lost, nothing invented, but two Equal elements kept
+			return "false;kept-equal"
+		}
 		return Bool(pairwiseNotEq(eq, out) && coveredBy(eq, orig, out) && coveredBy(eq, out, orig)) + ";"
 	}
 }
